@@ -2,7 +2,7 @@
 use crate::wire::dec_str;
 use crate::Handler;
 use riscv_analysis::cfg::MathOp;
-use riscv_analysis::parser::{CsrImm, Imm};
+use riscv_analysis::parser::{CsrImm, Imm, Inst};
 use std::str::FromStr;
 
 pub fn dispatch(cmd: &str) -> Option<Handler> {
@@ -10,6 +10,7 @@ pub fn dispatch(cmd: &str) -> Option<Handler> {
         "imm" => imm,
         "csrimm" => csrimm,
         "op" => op,
+        "instop" => instop,
         _ => return None,
     })
 }
@@ -43,4 +44,24 @@ fn op(a: &[&str]) -> String {
     let x: i32 = a[1].parse().unwrap();
     let y: i32 = a[2].parse().unwrap();
     mathop(a[0]).operate(x, y).to_string()
+}
+
+fn opname(o: Option<MathOp>) -> &'static str {
+    match o {
+        None => "-",
+        Some(MathOp::Add) => "add", Some(MathOp::And) => "and", Some(MathOp::Or) => "or", Some(MathOp::Sll) => "sll",
+        Some(MathOp::Slt) => "slt", Some(MathOp::Sltu) => "sltu", Some(MathOp::Sra) => "sra", Some(MathOp::Srl) => "srl",
+        Some(MathOp::Sub) => "sub", Some(MathOp::Xor) => "xor", Some(MathOp::Mul) => "mul", Some(MathOp::Mulh) => "mulh",
+        Some(MathOp::Mulhsu) => "mulhsu", Some(MathOp::Mulhu) => "mulhu", Some(MathOp::Div) => "div",
+        Some(MathOp::Divu) => "divu", Some(MathOp::Rem) => "rem", Some(MathOp::Remu) => "remu",
+    }
+}
+
+/// `instop <mnemonic>`: the operator the value analysis folds this mnemonic with (Inst::math_op) and the
+/// scalar operator used for stack arithmetic (Inst::scalar_op); `none` if the mnemonic is unknown
+fn instop(a: &[&str]) -> String {
+    match Inst::from_str(&dec_str(a[0])) {
+        Ok(i) => format!("{} {}", opname(i.clone().math_op()), opname(i.scalar_op())),
+        Err(_) => "none".to_string(),
+    }
 }
